@@ -38,10 +38,18 @@ def main():
         with Work() as work:
             return mod.run(rep, work, a.tier, seed)
     except TLCError as e:
+        if rep.violations:   # violations already reported stand; the rest of the run could not be completed
+            print(f"[{pid}] run aborted after reporting violations: {str(e)[:300]}", file=sys.stderr)
+            rep.finish()
+            return 1
         print(f"[{pid}] MACHINERY FAILURE: {e}", file=sys.stderr)
         return 2
     except Exception:
         traceback.print_exc()
+        if rep.violations:
+            print(f"[{pid}] run aborted after reporting violations (unexpected exception)", file=sys.stderr)
+            rep.finish()
+            return 1
         print(f"[{pid}] MACHINERY FAILURE (unexpected exception)", file=sys.stderr)
         return 2
 
